@@ -125,6 +125,7 @@ Definition valid_block (now : Z) (check_pow check_merkle : bool) (b : block) : P
 Definition valid_blockb (now : Z) (check_pow check_merkle : bool) (b : block) : bool :=
   let h := b_hdr b in
   let vtx := b_vtx b in
+  let txids := map txid vtx in      (* computed once by the extracted oracle *)
   (if check_pow then pow_okb (cp_pow_limit cp) (H (wire_header h)) (h_bits h) else true) &&
   (h_time h <=? now + 7200) &&
   negb (is_nil vtx) &&
@@ -132,10 +133,10 @@ Definition valid_blockb (now : Z) (check_pow check_merkle : bool) (b : block) : 
   (3 * lenZ (wire_block_stripped b) + lenZ (wire_block b) <=? 4000000) &&
   (match vtx with cb :: rest => coinbaseb cb && forallb (fun t => negb (coinbaseb t)) rest | [] => false end) &&
   forallb (valid_txb cp) vtx &&
-  nodupb bytes_eqb (map txid vtx) &&
+  nodupb bytes_eqb txids &&
   (zsum (map tx_sigops vtx) <=? 20000) &&
   (if check_merkle then
-     option_bytes_eqb (spec_root H (map txid vtx)) (Some (h_merkle h)) &&
+     option_bytes_eqb (spec_root H txids) (Some (h_merkle h)) &&
      (if existsb has_witness vtx then witness_commitment_okb vtx else true)
    else true).
 End BlockSpec.
